@@ -11,7 +11,45 @@ VEST_NOTE = ("Bounds: 6 addresses (two funded owners, two fresh recipients, one 
              "3 vesting types (free 0, 1/20, 1/2), ~80 message attempts per state with amounts chosen relative to the state (zero, one, half, all, all-1, over, negative), "
              "<= 2 (quick) / 3 (thorough) messages interleaved with time steps 0..4/6; amounts <= 40 so the P=100 model arithmetic equals the 18-digit code. "
              "Messages are delivered like baseapp.runTx without ante handler. TLC, the Json module and the harness projection are trusted.")
+CHAIN_NOTE = ("Chain.tla composes Minter.tla and Distributor.tla at block level (INSTANCE); cfevesting / cfesignature messages appear as opaque supply-neutral steps whose own semantics is Vesting.tla / Signature.tla. "
+              "Bounds: 3 minter x 3 distributor configurations, <= 2 (quick) / 3 (thorough) blocks, fees to the fee collector, one governance update, export at every point after the first block. "
+              "No Tendermint: ABCI calls are made directly; TLC, the Json module and the harness projection are trusted.")
 TEXT = {
+    "C01": {
+        "technique": "TLA+ spec Chain.tla (supply ledger ghosts minted/burned; SupplyLedger, SupplyOnlyInBlocks, SupplyDeltaIsMintMinusBurn checked by TLC); every transition replayed on the full application (real app.BeginBlocker/EndBlocker, routed messages) with bank supply, the bank total-supply invariant and per-block supply delta compared; vesting and minter stages add per-message supply neutrality",
+        "level": "Model checking of the composed block life-cycle plus conformance of the whole application on every enumerated transition: per-block supply delta = scheduled mint - configured burn, supply unchanged by every message (valid or rejected), supply = sum of balances (bank invariant evaluated on the real state after every step).",
+        "note": CHAIN_NOTE,
+    },
+    "C10": {
+        "technique": "TLA+ specs Chain.tla / Minter.tla / Distributor.tla with a halted flag (NeverHalts, CurrentPeriodExists invariants); every begin-block / end-block of the enumerated histories (parameter updates at any time relative to the schedule, persistent transfer faults, states restored from exported genesis) executed on the real application under recover()",
+        "level": "Model checking over configurations x update sequences x block times x fault patterns x export points, with every enumerated begin/end-block executed on the real code; a panic anywhere is reported with the history that reaches it.",
+        "note": CHAIN_NOTE + " Magnitudes above 2^31 (e.g. the int64 telemetry boundary) are outside the TLC domain; they are covered by the numeric stage when present.",
+    },
+    "C11": {
+        "technique": "TLC-generated histories of Chain.tla (seeded random paths of the enumerated transition graph) executed through real ABCI with Commit by two separate OS processes and repeatedly in-process; app hash, message outcomes and begin/end-block events compared at every height",
+        "level": "Exploration seeded by the model: the same histories are executed by independent application instances (separate processes: independent package state, map iteration order re-randomised per run) and must agree on the state commitment and results at every height.",
+        "note": CHAIN_NOTE + " Tendermint and IAVL are trusted; this is exploration, not a proof of determinism.",
+    },
+    "C12": {
+        "technique": "ExportImport is an action enabled in every idle state of Chain.tla / Minter.tla / Distributor.tla / Vesting.tla / Signature.tla; at every such point the harness exports through the real module manager, validates with ModuleBasics.ValidateGenesis, initialises a fresh application (InitChain), re-exports (custom modules, bank, auth byte-compared) and continues the remaining transitions on the restored application",
+        "level": "Crash-point enumeration by the model checker (every explored history prefix) with the real export / validate / import / re-export cycle executed at each point and all later transitions replayed on the restored state, so lost data shows as a divergence from the model later in the walk.",
+        "note": CHAIN_NOTE + " Known finding F7: cfesignature exports neither links nor signatures (needs a proto change).",
+    },
+    "C13": {
+        "technique": "TLA+ specs with the seven update messages as actions (authority x payload), transcribed validators (ValidCfg, ValidConfig) and invariants StoredParamsValid / CurrentPeriodExists / C13_Denom / OnlyGov / RejectedUnchanged; every update attempt (valid, one per validation rule broken, wrong signers) replayed through ValidateBasic + handler on the real application comparing accept/reject and the stored parameters",
+        "level": "Model checking over update sequences and conformance of the real handlers on every enumerated attempt; the transcribed validators are thereby bound to the real Validate() on every payload tried.",
+        "note": "Bounds: 20 minter payloads x 2 message kinds x 3 authorities at any schedule time; 43 distributor attempts (4 message kinds) on 13 curated configurations; vesting denom updates with and without pools. Governance proposals themselves (x/gov) are not driven; messages are delivered with the governance authority string. TLC, the Json module and the harness projection are trusted.",
+    },
+    "C18": {
+        "technique": "events are outputs of the model actions (act.minted, act.events per sub-distributor, per-pool withdraw events; MintEventIsDelta, EventsAddUp, C18_WithdrawEvents checked by TLC); the typed events of every real BeginBlocker / message are parsed and compared with the model and with the real balance deltas",
+        "level": "Model checking of the event algebra plus conformance of the real typed events on every enumerated block and message (mint amount = supply delta, distribution and burn events per sub-distributor, one withdrawal event per paying pool).",
+        "note": "Reading chosen for the distributor: the part of an inflow whose destination is MAIN has no event (it stays where it is); events + that part = inflow. Bounds as in C02 / C03 / C05. TLC, the Json module and the harness projection are trusted.",
+    },
+    "C19": {
+        "technique": "TLA+ spec Minter.tla: Inflation operator per minter type, InflationMatchesEmission (action property tying a block's mint to inflation*supply*dt/year) and InflationZeroCases checked by TLC; the real Inflation query compared with the model value (within 2/P) in every state of every enumerated transition, including states after parameter updates",
+        "level": "Model checking of the inflation/emission identity over all configurations and block partitions, plus conformance of the real query in every enumerated state.",
+        "note": "Bounds as in C02; year = 8 ticks so the real year constant is used by the code. Comparison tolerance 2/P (P=4096) because the model truncates the same rational at 1/P; exact 18-digit agreement is the numeric stage's job. TLC, the Json module and the harness projection are trusted.",
+    },
     "C15": {
         "technique": "TLA+ spec Signature.tla with abstract cryptography (WriteOnce action property, VerifySound invariant checked by TLC); every publish / store / verify transition replayed on the real handlers with generated ECDSA P-256 and RSA-2048 certificates, every single-field mutation of a valid record, and publish/store sequences on equal keys",
         "level": "Model checking of all message sequences (<= 3/4 messages) over 2 addresses x 2 reference ids x 2 links x 22 signature-record variants, with conformance of the real verification verdict, the echoed fields (compared with the raw stored record) and the raw link / signature store after every transition; the write-once predicate is evaluated directly on the real store around every message.",
